@@ -101,16 +101,18 @@ CLASS_MUTATIONS = [
 ]
 
 
-def impl_requests(spec, stream, chunks=None):
-    """Run the real parser, reading every body to EOF.  Returns the structured trace."""
+def impl_requests(spec, stream, chunks=None, prog=None):
+    """Run the real parser, reading every body to EOF (or, with `prog`, the way an application that leaves the body - or most
+    of it - unread does: the parser then discards the rest itself).  Returns the structured trace."""
     st = []
     chunks = chunks or [stream[i:i + 8192] for i in range(0, len(stream), 8192)]
-    lp.run_impl(spec, chunks, [[("read", None)]] * 12, structured=st)
+    lp.run_impl(spec, chunks, [[("read", None)] if prog is None else list(prog)] * 12, structured=st)
     return st
 
 
-def judge(stream, st):
-    """Returns None or (what, detail).  st = structured trace of the implementation."""
+def judge(stream, st, partial=False):
+    """Returns None or (what, detail).  st = structured trace of the implementation.  partial: the application read only a
+    prefix of each body (possibly nothing): what it read is a prefix of the strict body, and the request ends where it ends."""
     strict = rfc9112.strict_stream(stream)
     k = 0
     for item in st:
@@ -118,15 +120,19 @@ def judge(stream, st):
             continue
         # a request whose head was accepted; was the body read to EOF?
         calls = item["calls"]
-        if not calls or (isinstance(calls[-1][1], tuple) and calls[-1][1][0] == "exc"):
+        if (not calls and not partial) or (calls and isinstance(calls[-1][1], tuple) and calls[-1][1][0] == "exc"):
             break                       # the body read raised: not handed over, nothing follows
+        if item.get("not_drained"):
+            return ("request %d: the parser went on to the next request without having read this request's body to its end - "
+                    "the rest of the body is taken for the next request" % k,
+                    {"impl_body": (bytes(calls[-1][1][2:]) if calls else b"").decode("latin-1")[:300]})
         if "drained_left" not in item:
             break                       # the stream was rejected / ended while draining
-        body = bytes(calls[-1][1][2:])  # [1, len, bytes...]
+        body = bytes(calls[-1][1][2:]) if calls else b""  # [1, len, bytes...]
         end = len(stream) - item["drained_left"]
         s = strict[k] if k < len(strict) else ("end",)
         if s[0] == "req":
-            if body != s[1]["body"] or end != s[1]["end"]:
+            if (not s[1]["body"].startswith(body) if partial else body != s[1]["body"]) or end != s[1]["end"]:
                 return ("framing differs from the strict reading for request %d" % k,
                         {"impl_body": body.decode("latin-1"), "impl_end": end,
                          "strict_body": s[1]["body"].decode("latin-1"), "strict_end": s[1]["end"]})
@@ -161,18 +167,19 @@ def run(ctx):
     model_cases = []
     nstreams = 0
 
-    def one(tag, stream, spec=None, chunks=None):
+    def one(tag, stream, spec=None, chunks=None, prog=None):
         nonlocal nstreams
         spec = spec or specs[0]
-        st = impl_requests(spec, stream, chunks)
+        st = impl_requests(spec, stream, chunks, prog)
         nstreams += 1
         handed = sum(1 for i in st if "method" in i)
         ctx.count_case(stream, nontrivial=True)
         ctx.hist("family", tag[0] if isinstance(tag, tuple) else tag)
         ctx.hist("requests_handed", handed)
-        f = judge(stream, st)
+        f = judge(stream, st, partial=prog is not None)
         if f:
-            fails.append((tag, stream, f, chunks))
+            fails.append((tag, stream, f, chunks) if prog is None else
+                         (tag, stream, (f[0] + " (the application read the bodies with %r and left the rest to the server)" % (prog,), f[1]), chunks, prog))
         return st
 
     # fixture corpus of the repository: sanity of the strict reader as well
@@ -204,7 +211,26 @@ def run(ctx):
         if len(s) > 1 and ctx.rng.random() < 0.34:
             name, chunks = next(lp.segmentations(ctx.rng, s, [ctx.rng.choice(["cut", "random", "random", "small", "lines"])]))
             ctx.hist("segmentation", name.split("@")[0])
-        one(tag, s, spec=ctx.rng.choice(specs), chunks=chunks)
+        # ... and the application may leave a body unread, or read its first bytes only: the request still ends where it ends
+        prog = ctx.rng.choice([[], [("read", 3)], [("readline", None)]]) if ctx.rng.random() < 0.15 else None
+        if prog is not None:
+            ctx.hist("body_left_unread", repr(prog))
+        one(tag, s, spec=ctx.rng.choice(specs), chunks=chunks, prog=prog)
+    # bodies far larger than any buffer, with request-like text inside, left unread: the next request starts behind them
+    trap = b"\r\n\r\nGET /from-the-body HTTP/1.1\r\nHost: x\r\n\r\n"
+    for n in ((65537, 200000) if quick else (65536, 65537, 70000, 131073, 200000, 600000, 1100000)):
+        body = (trap + b"x" * 959) * (n // 1000 + 1)
+        body = body[:n]
+        for chunked in (False, True):
+            if chunked:
+                enc = b"".join(b"%x\r\n" % len(body[i:i + 30000]) + body[i:i + 30000] + b"\r\n" for i in range(0, n, 30000)) + b"0\r\n\r\n"
+                head = b"POST /upload HTTP/1.1\r\nHost: x\r\nTransfer-Encoding: chunked\r\n\r\n"
+            else:
+                enc = body
+                head = b"POST /upload HTTP/1.1\r\nHost: x\r\nContent-Length: %d\r\n\r\n" % n
+            for prog in ([], [("read", 10)]):
+                one(("unread-big", "chunked" if chunked else "content-length"), head + enc + b"GET /next HTTP/1.1\r\nHost: n\r\n\r\n", prog=prog)
+                ctx.hist("body_left_unread", "%d bytes" % n)
     if not quick:
         # pairs of sweep mutations
         base = list(sweep(all_positions=False))
@@ -223,12 +249,17 @@ def run(ctx):
     import lib_battery
     lib_battery.report(ctx, "bodies", "battery")
     seen_kinds = set()
-    for tag, stream, (what, detail), chunks in fails:
+    for tup in fails:
+        tag, stream, (what, detail), chunks = tup[:4]
         kind = what.split(":")[0][:60]
         if kind in seen_kinds and len(ctx.violations) >= 1:
             continue
         seen_kinds.add(kind)
         rep = {"kind": "c01", "stream": stream.decode("latin-1"), "detail": detail, "tag": repr(tag)}
+        if len(stream) > 20000:
+            rep["detail"] = {k2: (v[:300] if isinstance(v, str) else v) for k2, v in detail.items()}
+        if len(tup) > 4:
+            rep["prog"] = [list(c) for c in tup[4]]
         if chunks is not None:
             rep["chunks"] = [c.decode("latin-1") for c in chunks]
             what += " (the stream arrived in pieces of %r bytes)" % ([len(c) for c in chunks][:12],)
@@ -295,9 +326,10 @@ def replay(rep):
         return lib_battery.replay(rep)
     stream = rep["stream"].encode("latin-1")
     chunks = [c.encode("latin-1") for c in rep["chunks"]] if rep.get("chunks") else None
-    st = impl_requests(lp.make_spec(), stream, chunks)
-    f = judge(stream, st)
-    print("strict:", rfc9112.strict_stream(stream))
-    print("impl  :", [{k: v for k, v in i.items() if k != "headers"} for i in st])
+    prog = [tuple(c) for c in rep["prog"]] if rep.get("prog") is not None else None
+    st = impl_requests(lp.make_spec(), stream, chunks, prog)
+    f = judge(stream, st, partial=prog is not None)
+    print("strict:", repr(rfc9112.strict_stream(stream))[:2000])
+    print("impl  :", repr([{k: v for k, v in i.items() if k != "headers"} for i in st])[:2000])
     print("verdict:", f)
     return 1 if f else 0
